@@ -289,3 +289,13 @@ CHECKS["C17"]["text"] += (" Runs that never return are verdicts: the recorder's 
 CHECKS["C18"]["text"] += (" A model inside a zip entry with an honest or forged size header (up to 2^64-1) is loaded with NewModelFromZipFile; an abort "
                           "of the process by the Go runtime while the library is executing counts as a violation.")
 CHECKS["C13"]["text"] += " Graph outputs may carry annotations the graph does not compute: Run enforces the input signature only."
+
+# ---- round 12
+for _pid in ("C03", "C14"):
+    CHECKS[_pid]["text"] += (" In addition (code->spec, at the level of shapes): binary operators are applied to EVERY broadcast-compatible ordered "
+                             "pair of shapes of rank <= 4 over the extents 1,2,3,4,5,7,9 (146 000 pairs; thorough: 1..9, 433 000 pairs) in one process, "
+                             "with incompatible neighbours, and TLC validates result shape or refusal of every event against Trace_Shapes.tla. "
+                             "Operands holding the same elements under different shapes are also built as distinct tensors over one backing slice.")
+    CHECKS[_pid]["technique"] += "; shape-level trace validation of all compatible shape pairs (Trace_Shapes.tla)"
+for _pid in ("C03", "C04", "C05", "C06", "C07", "C08", "C09", "C10", "C11"):
+    CHECKS[_pid]["text"] += " After every application the caller's argument list must still hold the caller's tensor objects."
